@@ -17,7 +17,7 @@ TITLE = "Persistence images are additive, order-free and call-style independent"
 CASE_TIMEOUT_S = 120.0
 NEEDS_ZYGOTE = True
 PLAN = {
-    "quick": {"runs": 3200, "chunk": 20, "shrink_s": 40.0},
+    "quick": {"runs": 9600, "chunk": 20, "shrink_s": 40.0},
     "thorough": {"budget_s": 600.0, "chunk": 20, "shrink_s": 90.0},
 }
 MODES = ("proc", "thread-coop", "thread-preempt", "thread-preempt")
